@@ -33,6 +33,7 @@ type httpSpec struct {
 	GapsMs   []int  `json:"gaps_ms"`  // pause before each fragment
 	CloseAt  int    `json:"close_at"` // close the connection after this many bytes (0 = read the response)
 	Wait     bool   `json:"wait"`     // wait for this exchange to end before the next event
+	Probe    bool   `json:"probe,omitempty"` // sent while the UI is busy and the hand-over queue is full: still to be answered soon
 }
 
 const c16Key = "s3cr3t-Key"
@@ -222,8 +223,25 @@ func genC16Plan(r *zsim.Rng) *c16Plan {
 		p.Events = append(p.Events, sysEvent{Kind: "http", Cols: n})
 		n++
 	}
+	// Targeted mode: the UI is busy with a command for a minute while more valid POSTs arrive than the
+	// hand-over queue to the terminal holds (100). The surplus is to be turned away (503 after a short wait),
+	// never to block the accept loop: a GET sent after the flood is answered long before the command ends.
+	if r.Chance(1, 12) {
+		p.Addr = "localhost:6266"
+		p.Unsafe, p.UnsafeFirst = false, false
+		p.Procs = []procSpec{{FinalMs: 60000}}
+		p.HTTP, p.Events = nil, []sysEvent{{Kind: "settle"}, {Kind: "keys", Keys: "alt-e"}}
+		n = 0
+		for ; n < 100+r.Range(1, 3); n++ {
+			p.HTTP = append(p.HTTP, httpSpec{ID: n, Method: "POST", Path: "/", Version: "HTTP/1.1", KeyMode: 1, KeyName: r.Intn(4)})
+			p.Events = append(p.Events, sysEvent{Kind: "http", Cols: n, DelayMs: []int{0, 0, 1}[r.Intn(3)]})
+		}
+		p.HTTP = append(p.HTTP, httpSpec{ID: n, Method: "GET", Path: "/", Version: "HTTP/1.1", KeyMode: 1, Wait: true, Probe: true})
+		p.Events = append(p.Events, sysEvent{Kind: "http", Cols: n, DelayMs: 100})
+		n++
+	}
 	// while the UI is busy: a POST that runs a slow foreground-ish command, then more requests
-	if r.Chance(1, 4) {
+	if r.Chance(1, 4) && len(p.Procs) == 0 {
 		p.Procs = append(p.Procs, procSpec{DelaysMs: []int{r.Range(500, 4000)}})
 	}
 	p.Events = append(p.Events, sysEvent{Kind: "httpwait"}, sysEvent{Kind: "settle"})
@@ -501,6 +519,9 @@ func runC16(c *runCtx) {
 			}
 		}
 		complete := res.class == "post-valid" || res.class == "post-crlf" || res.class == "get"
+		if res.spec.Probe && res.ended-res.started > 30*time.Second {
+			c.violate("c16.slow_answer", "request %d (%s) was sent while the terminal was busy and its queue full; it was answered only after %v (each surplus request may take the accept loop 2 s, not until the command ends)", i, res.class, res.ended-res.started)
+		}
 		if complete && res.alone && total == 0 && res.spec.Wait && res.ended-res.started > 8*time.Second {
 			c.violate("c16.slow_answer", "request %d (%s) was sent at once but answered only after %v", i, res.class, res.ended-res.started)
 		}
